@@ -55,6 +55,11 @@ func setupBase(b *base) sdk.Context {
 		}
 	}
 	b.holders = []common.Address{w.A("u1").Hex(), w.A("u2").Hex(), w.A("rel").Hex(), erc20Module(), cctypes.GetAddress(), b.toks["FX"].ERC20}
+	for _, t := range b.toks {
+		if t.Name != "FX" {
+			b.holders = append(b.holders, t.ERC20) // a token contract can be named as receiver of a conversion
+		}
+	}
 	return ctx
 }
 
@@ -216,6 +221,46 @@ func (s *Spec) convOp(user, tok string, toERC20 bool, amt int64, receiver string
 	}}
 }
 
+// convToAddrOp converts to an unusual receiver given by address (a module account, the token contract itself).
+// Whether such a conversion is admitted is the implementation's choice; if it is, the sender must lose exactly the
+// amount in the source form and the receiver must gain exactly the amount in the target form.
+func (s *Spec) convToAddrOp(tok string, toERC20 bool, amt int64, rname string, raddr common.Address) explore.Op {
+	name := fmt.Sprintf("ConvertCoin(u1,%s,%d->%s)", tok, amt, rname)
+	if !toERC20 {
+		name = fmt.Sprintf("ConvertERC20(u1,%s,%d->%s)", tok, amt, rname)
+	}
+	return explore.Op{Name: name, Run: func(c *explore.State) {
+		w := s.b.w
+		tk := s.b.toks[tok]
+		u := w.A("u1")
+		coinBal := func(a sdk.AccAddress) sdkmath.Int { return w.App.BankKeeper.GetBalance(c.Ctx, a, tk.Base).Amount }
+		ercBal := func(a common.Address) sdkmath.Int { return scen.BalanceOf(w, c.Ctx, tk.ERC20, a) }
+		c0s, e0s, c0r, e0r := coinBal(u.Acc()), ercBal(u.Hex()), coinBal(raddr.Bytes()), ercBal(raddr)
+		var r world.MsgResult
+		if toERC20 {
+			r = w.Deliver(c.Ctx, &erc20types.MsgConvertCoin{Coin: sdk.NewInt64Coin(tk.Base, amt), Receiver: raddr.String(), Sender: u.Bech()})
+		} else {
+			r = w.Deliver(c.Ctx, &erc20types.MsgConvertERC20{ContractAddress: tk.ERC20.String(), Amount: sdkmath.NewInt(amt), Receiver: sdk.AccAddress(raddr.Bytes()).String(), Sender: u.Hex().String()})
+		}
+		c.Accepted = r.OK()
+		c.Outcome = map[bool]string{true: "ok", false: "rejected"}[r.OK()]
+		if !r.OK() {
+			return
+		}
+		a := sdkmath.NewInt(amt)
+		dcs, des, dcr, der := coinBal(u.Acc()).Sub(c0s), ercBal(u.Hex()).Sub(e0s), coinBal(raddr.Bytes()).Sub(c0r), ercBal(raddr).Sub(e0r)
+		bad := false
+		if toERC20 {
+			bad = !dcs.Equal(a.Neg()) || !des.IsZero() || !der.Equal(a)
+		} else {
+			bad = !des.Equal(a.Neg()) || !dcs.IsZero() || !dcr.Equal(a)
+		}
+		if bad {
+			c.Violate("conversion-moves-exactly-the-amount", sig("conversion-to-special-receiver-moved-wrong-amounts/"+tk.Kind), fmt.Sprintf("%s: sender coin %s erc20 %s; receiver coin %s erc20 %s", name, dcs, des, dcr, der))
+		}
+	}}
+}
+
 func (s *Spec) Ops(st *explore.State) []explore.Op {
 	w := s.b.w
 	ctx := st.Ctx
@@ -224,6 +269,8 @@ func (s *Spec) Ops(st *explore.State) []explore.Op {
 	for _, t := range toks {
 		ops = append(ops, s.convOp("u1", t, true, 3, "u1"), s.convOp("u1", t, false, 2, "u1"))
 		ops = append(ops, s.convOp("u1", t, true, 3, "u2"), s.convOp("u2", t, false, 2, "u1"))
+		ops = append(ops, s.convToAddrOp(t, true, 1, "erc20-module", erc20Module()), s.convToAddrOp(t, false, 1, "erc20-module", erc20Module()))
+		ops = append(ops, s.convToAddrOp(t, true, 1, "token-contract", s.b.toks[t].ERC20), s.convToAddrOp(t, true, 1, "precompile", cctypes.GetAddress()))
 	}
 	gov := func(name string, msg sdk.Msg) explore.Op {
 		return explore.Op{Name: name, Run: func(c *explore.State) {
